@@ -208,6 +208,21 @@ def do_check(prop, sim, known, args):
     print("VERIF_SEED=%d property=%s tier=%s runs=%d workers=%d budget_s=%d repo=%s" % (seed, prop, tier, total_runs, workers, budget, args.repo))
     sys.stdout.flush()
 
+    # regression: replay files of repaired defects must stay clean
+    regressions = []
+    fdir = os.path.join(ROOT, "findings")
+    if os.path.isdir(fdir):
+        adapter0 = SimAdapter(sim, known)
+        for name in sorted(os.listdir(fdir)):
+            if not (name.startswith(prop + "-") and name.endswith(".json")):
+                continue
+            with open(os.path.join(fdir, name)) as f:
+                doc = json.load(f)
+            case = {"config": doc["config"], "events": doc["events"]}
+            v = run_one(adapter0, case, Stats(collect=False))
+            if v is not None:
+                regressions.append((-1, case, v.record(prop), v.klass()))
+                print("regression: %s fails again" % name)
     pre = {}
     if hasattr(sim, "preflight"):
         # deterministic, un-sharded part of the check (e.g. the boot sweep)
@@ -220,7 +235,7 @@ def do_check(prop, sim, known, args):
         "states": set(), "nontrivial": set(), "transitions": set(), "histories": set(),
     }
     capped = {"states": False, "nontrivial": False, "transitions": False, "histories": False}
-    violations = list(pre.get("violations", []))
+    violations = regressions + list(pre.get("violations", []))
     samples = []
     digests = {}
     truncated = False
@@ -349,6 +364,7 @@ def do_check(prop, sim, known, args):
         "event_log_sha256": log_digest,
         "workers": workers,
         "repo_head": git_head(args.repo),
+        "regression_replays_run": len([n for n in (os.listdir(fdir) if os.path.isdir(fdir) else []) if n.startswith(prop + "-")]),
         "violations": [{"replay": p, "violation": d["violation"], "events": len(d["events"]), "minimised_from_events": d["minimised_from_events"]} for p, d in reported],
     }
     coverage.update(pre.get("coverage", {}))
